@@ -48,6 +48,14 @@ func TestC07(t *testing.T) {
 			w.storeLoadCycle(t, st, true)
 			restoredChecked = true
 		}
+		acts["backup_old"] = func(t *rapid.T) {
+			if cycles >= 2 {
+				t.Skip("no backup")
+			}
+			cycles++
+			w.oldSnapshotBackup(t, st, true)
+			restoredChecked = true
+		}
 		acts[""] = func(t *rapid.T) {
 			if n := w.arena.BadCount(); n > 0 {
 				w.Failf("bad-free", "allocator recorded a bad free: %v", w.arena.Report())
